@@ -314,28 +314,50 @@ func c44Run(t *testing.T, ci any, trace bool) *verifsim.Result {
 		}
 		// prioritized provider: every key of every stream, minus what an earlier stream emitted
 		if c.Prioritized {
-			var want []cid.Cid
-			seen := map[string]bool{}
+			// Earliest stream of every key, its multiplicity there, and the order of first
+			// occurrences. Whether duplicates *within* one stream are emitted once or
+			// several times is not fixed by the statement; both are accepted.
+			type info struct{ stream, mult, order int }
+			first := map[string]*info{}
+			n := 0
 			for i, st := range c.Streams {
-				last := i == len(c.Streams)-1
 				for _, k := range st {
-					kc := c44Cid(k)
-					if seen[kc.KeyString()] {
+					ks := c44Cid(k).KeyString()
+					if in, ok := first[ks]; ok {
+						if in.stream == i {
+							in.mult++
+						}
 						continue
 					}
-					want = append(want, kc)
-					if !last {
-						seen[kc.KeyString()] = true
-					}
+					first[ks] = &info{stream: i, mult: 1, order: n}
+					n++
 				}
 			}
-			if len(want) != len(emitted) {
-				s.Failf("prioritized-wrong", "the prioritized provider emitted %d keys, expected %d (streams %v)", len(emitted), len(want), c.Streams)
-				return
+			count := map[string]int{}
+			lastOrder := -1
+			for i, k := range emitted {
+				in, ok := first[k.KeyString()]
+				if !ok {
+					s.Failf("prioritized-wrong", "the prioritized provider emitted %s, which is in none of the streams %v", k, c.Streams)
+					return
+				}
+				count[k.KeyString()]++
+				if count[k.KeyString()] > in.mult {
+					s.Failf("prioritized-wrong", "the prioritized provider emitted %s %d times; it occurs %d time(s) in its first stream (#%d), later streams must not emit it again (streams %v)", k, count[k.KeyString()], in.mult, in.stream, c.Streams)
+					return
+				}
+				if count[k.KeyString()] == 1 {
+					if in.order < lastOrder {
+						s.Failf("prioritized-wrong", "emission #%d (%s) is out of order with respect to the stream priorities (streams %v)", i, k, c.Streams)
+						return
+					}
+					lastOrder = in.order
+				}
 			}
-			for i := range want {
-				if !want[i].Equals(emitted[i]) {
-					s.Failf("prioritized-wrong", "the prioritized provider's emission #%d is %s, expected %s (streams %v)", i, emitted[i], want[i], c.Streams)
+			for ks, in := range first {
+				if count[ks] == 0 {
+					kc, _ := cid.Cast([]byte(ks))
+					s.Failf("prioritized-wrong", "key %s of stream #%d was never emitted by the prioritized provider (streams %v)", kc, in.stream, c.Streams)
 					return
 				}
 			}
